@@ -1,7 +1,7 @@
 """C01 - find_answer decides satisfiability and leaves a genuine model (structural clauses)."""
 from ..core.findings import Report
 from ..core.loader import Repo
-from . import exprmodel, opc
+from . import exprmodel, opc, z3m
 
 
 def run(repo: Repo, rep: Report) -> None:
@@ -9,3 +9,5 @@ def run(repo: Repo, rep: Report) -> None:
     world = exprmodel.ExprWorld(repo)
     opc.check_scalar_dunders(repo, rep, world)
     opc.check_helpers(repo, rep, world)
+    z3m.check_z3_backend(repo, rep)
+    z3m.check_variable_identity(repo, rep)
